@@ -57,8 +57,9 @@ DIMS = {
     "eager_place": ["none", "page_body", "nested_component"],
     "lazy_macro": ["none", "td", "t"],
     "wrap": ["provider", "sub_provider_component", "plain_subcontext_function"],
+    "table_size": ["none", "0", "1", "2+"],      # number of strings of the used units
 }
-EMPTY_VALUES = {"units": "0", "hist": "none", "touchkind": "none", "mix": "-", "cls_pos": "none", "access": "none"}
+EMPTY_VALUES = {"units": "0", "hist": "none", "touchkind": "none", "mix": "-", "cls_pos": "none", "access": "none", "table_size": "none"}
 
 
 def infeasible(A, a, B, b):
@@ -69,7 +70,7 @@ def infeasible(A, a, B, b):
                 if d2 == d:
                     continue
                 if d2 in EMPTY_VALUES and x != EMPTY_VALUES[d2]:
-                    return "a request that uses no unit has units=0, hist=none, touchkind=none, mix=-, cls_pos=none, access=none"
+                    return "a request that uses no unit has units=0, hist=none, touchkind=none, mix=-, cls_pos=none, access=none, table_size=none"
                 if (d2, x) in (("first_touch_outside", "yes"), ("defaulted", "yes"), ("repeat_in_request", "yes"),
                                ("outside", "same_unit"), ("prev", "same"), ("prev", "overlap")):
                     return "needs at least one unit used inside the provider"
@@ -77,7 +78,7 @@ def infeasible(A, a, B, b):
         if d in v and v[d] != e:
             for d2, x in v.items():
                 if d2 != d and d2 in EMPTY_VALUES and x == EMPTY_VALUES[d2]:
-                    return "a request that uses no unit has units=0, hist=none, touchkind=none, mix=-, cls_pos=none, access=none"
+                    return "a request that uses no unit has units=0, hist=none, touchkind=none, mix=-, cls_pos=none, access=none, table_size=none"
     g = v.get
     if (g("eager_macro") in (None, "none")) != (g("eager_place") in (None, "none")) and "eager_macro" in v and "eager_place" in v:
         return "an eager access has a macro and a place"
@@ -127,6 +128,7 @@ class Plan:
             self.info.append({"unit": (ns, eff), "req": (ns, loc), "kind": kind, "defaulted": eff != loc})
         self.all_units = sorted({i["unit"] for i in self.info}, key=lambda x: (x[0] or "", x[1]))
         self.cls = {}
+        self.size = {u: len(tables["units"][u]["strings"]) for u in self.all_units}
         for u in self.all_units:
             strings = tables["units"][u]["strings"]
             cp = set()
@@ -203,6 +205,7 @@ class Plan:
         t["eager_place"] = {("nested_component" if c.isupper() else "page_body") for c, _ in eager} or {"none"}
         t["lazy_macro"] = ({"td"} if req["in"] else set()) | ({"t"} if req.get("ctx") else set()) or {"none"}
         t["wrap"] = {DIMS["wrap"][req.get("wrap", 0)]}
+        t["table_size"] = {("0" if self.size[u] == 0 else "1" if self.size[u] == 1 else "2+") for u in used} or {"none"}
         after = {"seen": seen_before | used | out_units, "first_outside": first_outside, "prev": used}
         return t, after
 
@@ -523,7 +526,9 @@ def run(ctx):
                 ("plain", sc.gen_project(rng, max_locales=3, force_ns=False), 60),
                 ("mx_ns", sc.matrix_project(rng, True), 25),
                 ("mx_a", sc.matrix_project(rng, False, shift=0, n_units=6), 25),
-                ("mx_b", sc.matrix_project(rng, False, shift=6, n_units=6), 25)]
+                ("mx_b", sc.matrix_project(rng, False, shift=6, n_units=6), 25),
+                # units with an EMPTY string table (interpolation-only / numeric values), with one string, with several
+                ("sz_plain", sc.sized_project(rng, False), 25)]
     if not ctx.quick:
         for j in range(2, 5):
             projects += [("ns%d" % j, sc.gen_project(rng, max_locales=4, force_ns=True), 150),
@@ -543,7 +548,7 @@ def run(ctx):
     not_intact = [m for m in metas if not m["embedded_intact"]]
     known = [f for f in core.load_known("C17") if f.get("status") == "known"]
     if bad_spec:
-        bad_spec.sort(key=lambda m: (m["position_in_process"], len(m["used_units"]),
+        bad_spec.sort(key=lambda m: (len(m["used_units"]), m["position_in_process"],
                                      sum(len(s) for u in m["used_units"] for s in u["strings"])))
         first = dict(bad_spec[0])
         first["offending_strings"] = shrink_desc(first)
@@ -601,11 +606,12 @@ def run(ctx):
     core.write_evidence(ctx, {
         "evaluations": len(metas), "distinct_nontrivial": len(nontrivial),
         "pairwise_coverage": pw,
-        "rule": "per run five (thorough: eleven) generated projects compiled with load_locales!() under dynamic_load+ssr: random "
+        "rule": "per run six (thorough: twelve) generated projects compiled with load_locales!() under dynamic_load+ssr: random "
                 "ones with namespaces (string ids) and without (null id), 1-3 (4) locales, nested subkeys, defaulted keys, strings "
                 "from the adversarial pool, and three class-matrix projects in which every class of text (quote, backslash, C0, C1, "
                 "NBSP, zero-width, U+2028/9, astral, combining, empty, </script>, <!--) is the first, a middle and the last string of "
-                "some unit. Requests are rendered in SEQUENCES, one server process per sequence: the empty page, random sets of "
+                "some unit; namespaces and locales whose units have an empty string table (interpolation-only and numeric "
+                "values) or exactly one string, next to units with several. Requests are rendered in SEQUENCES, one server process per sequence: the empty page, random sets of "
                 "units (pages repeated), then requests chosen until every feasible pair of tag values (pairwise_coverage) is "
                 "reached: same unit in consecutive requests, first touch / repeat / mixed, after an empty page, after a page that "
                 "used every unit, accessors run outside of any provider, several locales / namespaces in one page, plain and "
